@@ -404,6 +404,124 @@ def shrink_doc(doc, failing):
     return cur, det
 
 
+# ------------------------------------------------------------------ tie B: model toRows / remap vs real to_rows
+
+_ROW_ID_FIELDS = ("row_id", "edges", "node_uuid", "obj_id", "mainarg_destination_row_ids")
+
+
+def _label(cond) -> str:
+    d = cond.dict()
+    return "" if not any(d.values()) else json.dumps(d, sort_keys=True, ensure_ascii=False)
+
+
+def _payload(row) -> str:
+    d = row.dict()
+    for k in _ROW_ID_FIELDS:
+        d.pop(k, None)
+    if d.get("type") == "go_to":
+        from rpft.parsers.creation.flowrowmodel import FlowRowModel
+        blank = FlowRowModel(type="go_to", edges=[]).dict()
+        for k in _ROW_ID_FIELDS:
+            blank.pop(k, None)
+        if d == blank:
+            return "go_to"
+    return json.dumps(d, sort_keys=True, ensure_ascii=False)
+
+
+def model_input(flow):
+    """NodeX list of Rpft/Export.lean from the REAL loaded FlowContainer: node uuid, short_name(), the row
+    models initiate_row_models creates (content + obj_id), get_exit_edge_pairs() labels and destinations."""
+    from rpft.parsers.creation.flowrowmodel import Edge
+
+    nodes = []
+    for node in flow.nodes:
+        node.clear_row_model()
+        node.initiate_row_models("X", Edge(from_="start"))
+        rows = [[_payload(r), r.obj_id or None] for r in node.get_row_models()]
+        edges = [[_label(edge.condition), ex.destination_uuid or None] for ex, edge in node.get_exit_edge_pairs()]
+        nodes.append({"uuid": node.uuid, "short": node.short_name(), "rows": rows, "edges": edges})
+    return nodes
+
+
+def real_rows(flow, numbered):
+    rows = flow.to_rows(numbered)
+    return {
+        "rows": [{"id": r.row_id, "payload": _payload(r), "edges": [[e.from_, _label(e.condition)] for e in r.edges],
+                  "goto": list(r.mainarg_destination_row_ids)} for r in rows],
+        "node_ids": [r.node_uuid or None for r in rows],
+        "obj_ids": [r.obj_id or None for r in rows],
+    }
+
+
+def tie_requests(doc):
+    """[(request | None, real answer | error string, flow index, numbered)] for every flow of the file"""
+    from rpft.rapidpro.models.containers import RapidProContainer
+
+    out = []
+    for fi in range(len(doc["flows"])):
+        for numbered in (False, True):
+            try:
+                real = real_rows(RapidProContainer.from_dict(doc).flows[fi], numbered)
+            except Exception as e:  # noqa: BLE001
+                real = f"{type(e).__name__}"
+            try:
+                nodes = model_input(RapidProContainer.from_dict(doc).flows[fi])
+                req = {"op": "export.rows", "numbered": numbered, "nodes": nodes}
+            except Exception:  # noqa: BLE001 — a node the real objects cannot even describe (short_name / row model raises)
+                req = None
+            out.append((req, real, fi, numbered))
+    return out
+
+
+def tie_compare(req, real, ans):
+    """None if model and code agree, else a description"""
+    if isinstance(ans, dict) and "__error__" in ans:
+        return {"what": "driver error", "error": ans["__error__"]}
+    if isinstance(real, str):
+        if "err" in ans:
+            return None
+        return {"what": "real to_rows raises, model returns rows", "real": real, "model_rows": len(ans.get("rows", []))}
+    if "err" in ans:
+        return {"what": "model reports an error, real to_rows returns rows", "model": ans["err"], "real_rows": len(real["rows"])}
+    if ans == real:
+        return None
+    for i, (a, b) in enumerate(zip(ans["rows"], real["rows"])):
+        if a != b:
+            return {"what": "row differs", "index": i, "model": a, "real": b}
+    if len(ans["rows"]) != len(real["rows"]):
+        return {"what": "number of rows differs", "model": len(ans["rows"]), "real": len(real["rows"])}
+    return {"what": "node_uuid / obj_id column differs", "model": [ans["node_ids"], ans["obj_ids"]], "real": [real["node_ids"], real["obj_ids"]]}
+
+
+def csv_vs_rows(files, doc, numbered):
+    """the written CSV carries exactly the ids / from / go_to targets of to_rows (ties the file to the row models)"""
+    from rpft.rapidpro.models.containers import RapidProContainer
+
+    for fi, f in enumerate(doc["flows"]):
+        data = files.get(f"{f['name']}.csv")
+        if data is None:
+            return {"what": "no file for flow", "flow": f["name"]}
+        headers, rows = parse_csv(data)
+        real = real_rows(RapidProContainer.from_dict(doc).flows[fi], numbered)["rows"]
+        if not real and not rows:
+            continue
+        if len(rows) != len(real):
+            return {"what": "CSV row count differs from to_rows", "csv": len(rows), "rows": len(real)}
+        col = {h: i for i, h in enumerate(headers)}
+        for i, (r, m) in enumerate(zip(rows, real)):
+            if r[col["row_id"]] != m["id"]:
+                return {"what": "CSV row_id differs from to_rows", "row": i, "csv": r[col["row_id"]], "rows": m["id"]}
+            if len(m["edges"]) == 1 and "from" in col:
+                froms = [r[col["from"]]]
+            else:
+                froms = [r[col[f"edges.{k}.from"]] for k in range(1, len(m["edges"]) + 1) if f"edges.{k}.from" in col]
+            if froms != [e[0] for e in m["edges"]]:
+                return {"what": "CSV from cells differ from to_rows", "row": i, "csv": froms, "rows": m["edges"]}
+            if m["goto"] and r[col["message_text"]].rstrip("|") != "|".join(m["goto"]):
+                return {"what": "CSV go_to target differs from to_rows", "row": i, "csv": r[col["message_text"]], "rows": m["goto"]}
+    return None
+
+
 # ------------------------------------------------------------------ generators
 
 
@@ -475,12 +593,21 @@ def worker(args):
         stats[k] = stats.get(k, 0) + int(v)
 
     cli_left = 1 if use_cli else 0
+    tie_items = []
     for i in range(n):
         src, doc = gen_doc(rng, maxnodes)
         if doc is None:
             bump("compile_failed")
             continue
         bump("generated." + src)
+        if rng.random() < 0.04 and doc["flows"][0]["nodes"]:   # malformed stream for the tie: an exit into a node that does not exist
+            doc = json.loads(json.dumps(doc))
+            nd = rng.choice(doc["flows"][0]["nodes"])
+            rng.choice(nd["exits"])["destination_uuid"] = fresh_uuid(rng)
+            bump("malformed.dangling_destination")
+        with LogCapture():
+            for t in tie_requests(doc):
+                tie_items.append((doc, t))
         kinds = RENAMING_KINDS if kinds_per_doc >= len(RENAMING_KINDS) else ["fresh"] + rng.sample(RENAMING_KINDS[1:], kinds_per_doc - 1)
         sub = rng.randrange(1 << 60)
         with LogCapture():
@@ -501,6 +628,14 @@ def worker(args):
         if r["fail"]:
             bad.append({"doc": doc, "kinds": kinds, "subseed": sub, "fail": r["fail"], "src": src})
             continue
+        if i % 4 == 0:
+            with LogCapture():
+                for numbered in (False, True):
+                    x = csv_vs_rows(export_files(doc, numbered, workdir), doc, numbered)
+                    bump("csv_vs_to_rows")
+                    if x:
+                        bad.append({"doc": doc, "kinds": kinds, "subseed": sub, "src": src, "cli": True,
+                                    "fail": {"what": "the written CSV does not carry the ids of to_rows: " + x["what"], "detail": x, "mode": "numbered" if numbered else "named"}})
         if cli_left and len(doc["flows"][0]["nodes"]) >= 3:
             cli_left -= 1
             ids = collect_uuids(doc)
@@ -531,7 +666,45 @@ def worker(args):
                                 "fail": {"what": what, "mode": "numbered" if numbered else "named", "mapping": m, "leak": leaks[:1],
                                          "original": a.get(fn, b"").decode("utf-8", "replace")[:2000], "renamed": b.get(fn, b"").decode("utf-8", "replace")[:2000]}})
                     break
-    return {"stats": stats, "bad": bad[:6], "nbad": len(bad), "keys": keys, "sample": sample}
+    # tie B (one driver batch per worker)
+    ties = []
+    reqs = [t[0] for _, t in tie_items if t[0] is not None]
+    answers = iter(core.Driver().results(reqs)) if reqs else iter(())
+    for doc, (req, real, fi, numbered) in tie_items:
+        if req is None:
+            bump("tie.skipped_node_not_describable")
+            continue
+        ans = next(answers)
+        bump("tie.compared")
+        if isinstance(real, str):
+            bump("tie.real_raises." + real)
+        else:
+            bump("tie.rows", len(real["rows"]))
+            bump("tie.multi_edge_rows", sum(1 for r in real["rows"] if len(r["edges"]) > 1))
+            if not numbered:
+                bump("tie.named_ids_with_counter", sum(1 for r in real["rows"] if re.search(r"\.\d+$", r["id"])))
+        d = tie_compare(req, real, ans)
+        if d is not None:
+            ties.append({"diff": d, "request": req if len(json.dumps(req)) < 6000 else {"nodes": len(req["nodes"])}, "document": doc if len(ties) < 2 else None})
+    return {"stats": stats, "bad": bad[:6], "nbad": len(bad), "keys": keys, "sample": sample, "ties": ties[:5], "nties": len(ties)}
+
+
+def search_worker(args):
+    """failing-input search: the direct oracle only, larger flows"""
+    seed, n, maxnodes, _, _, workdir = args
+    rng = random.Random(seed)
+    bad, cnt = [], 0
+    for _ in range(n):
+        src, doc = gen_doc(rng, maxnodes)
+        if doc is None:
+            continue
+        sub = rng.randrange(1 << 60)
+        with LogCapture():
+            r = check_doc(doc, RENAMING_KINDS, random.Random(sub), workdir)
+        cnt += 1
+        if r["fail"]:
+            bad.append({"doc": doc, "kinds": RENAMING_KINDS, "subseed": sub, "fail": r["fail"], "src": src})
+    return {"bad": bad[:4], "n": cnt}
 
 
 # ------------------------------------------------------------------ known-finding streams (deterministic)
@@ -651,6 +824,7 @@ def run(ck: core.Check):
         n_total = 640 if quick else 9600
         maxnodes = 9 if quick else 16
         nshards = par.NPROC * (1 if quick else 3)
+        tie_docs = []
         jobs = [(ck.rng.randrange(1 << 60), n_total // nshards, maxnodes, len(RENAMING_KINDS), i < (8 if quick else 16), workdir) for i in range(nshards)]
         for r in par.pmap(worker, jobs):
             for k, v in r["stats"].items():
@@ -661,10 +835,32 @@ def run(ck: core.Check):
                 ck.samples.append(r["sample"])
             for b in r["bad"][:2]:
                 report_bad(ck, b, workdir)
+            for t in r["ties"]:
+                ck.tie_break("model toRows/remap and real to_rows differ: " + t["diff"]["what"], t)
+                tie_docs.append(t.get("document"))
+            if r["nties"] > len(r["ties"]):
+                ck.count("tie_break", r["nties"] - len(r["ties"]))
             if r["nbad"] > 2:
                 ck.count("failing_cases_not_shrunk", r["nbad"] - 2)
+        if (ck.tie_breaks or not ck.lean.ok) and not ck.violations:
+            # obligation broken: failing-input search = the disagreeing flow files under every renaming kind + a thorough-size
+            # sample of the generators through the direct oracle
+            ck.search_ran = True
+            for d in [d for d in tie_docs if d][:10]:
+                with LogCapture():
+                    r = check_doc(d, RENAMING_KINDS, random.Random(1), workdir)
+                ck.count("search.disagreeing_inputs")
+                if r["fail"]:
+                    report_bad(ck, {"doc": d, "kinds": RENAMING_KINDS, "subseed": 1, "fail": r["fail"], "src": "tie disagreement"}, workdir)
+            if quick and not ck.violations:
+                jobs = [(ck.rng.randrange(1 << 60), 100, 16, len(RENAMING_KINDS), False, workdir) for _ in range(par.NPROC)]
+                for r in par.pmap(search_worker, jobs):
+                    ck.count("search.cases", r["n"])
+                    for b in r["bad"][:2]:
+                        report_bad(ck, b, workdir)
         need = {"generated.foreign": 20, "generated.compiled": 20, "flows_with_join": 10, "flows_with_go_to": 10, "flows_with_self_loop": 3,
-                "flows_with_multi_action_node": 10, "flows_with_ui": 10, "cli_exports": 4}
+                "flows_with_multi_action_node": 10, "flows_with_ui": 10, "cli_exports": 4, "tie.compared": 200, "tie.multi_edge_rows": 20,
+                "tie.named_ids_with_counter": 20, "tie.real_raises.ValueError": 1, "csv_vs_to_rows": 20}
         for k, v in need.items():
             if ck.strata.get(k, 0) < v:
                 raise core.Infra(f"generator stratum {k} under-represented: {ck.strata.get(k, 0)} < {v}")
